@@ -445,6 +445,11 @@ impl Sub for Builders {
             Ok(d) => d,
             Err(e) => {
                 ctx.label(&format!("rejected_{:?}", case.target));
+                if ctx.samples.len() < 2 {
+                    let msg = e.to_string();
+                    ctx.sample(|| serde_json::json!({"target": format!("{:?}", case.target), "edits": format!("{:?}", case.edits),
+                        "outcome": format!("rejected: {msg}"), "edited_file": self.edited_text(case, &fs)}));
+                }
                 ctx.label(match e {
                     vibrato::errors::VibratoError::InvalidFormat(_) => "err_invalid_format",
                     vibrato::errors::VibratoError::InvalidArgument(_) => "err_invalid_argument",
@@ -542,12 +547,26 @@ impl Sub for Builders {
             }
         }
         self.count_nontrivial(case, &fs, &orig, ctx);
-        ctx.sample(|| serde_json::json!({"target": format!("{:?}", case.target), "edits": format!("{:?}", case.edits), "outcome": "accepted"}));
+        ctx.sample(|| serde_json::json!({"target": format!("{:?}", case.target), "edits": format!("{:?}", case.edits), "outcome": "accepted and tokenized safely",
+            "edited_file": self.edited_text(case, &fs)}));
         Ok(())
     }
 }
 
 impl Builders {
+    fn edited_text(&self, case: &MutCase, fs: &FileSet) -> String {
+        let b: Vec<u8> = match case.target {
+            Target::Lex => fs.lex.clone(),
+            Target::CharDef => fs.chardef.clone(),
+            Target::Unk => fs.unk.clone(),
+            Target::Matrix => fs.matrix.clone().unwrap_or_default(),
+            Target::User => fs.user.clone().unwrap_or_default(),
+            Target::BigramRight | Target::BigramBoth => fs.bigram.as_ref().map(|b| b.0.clone()).unwrap_or_default(),
+            Target::BigramLeft => fs.bigram.as_ref().map(|b| b.1.clone()).unwrap_or_default(),
+            Target::BigramCost => fs.bigram.as_ref().map(|b| b.2.clone()).unwrap_or_default(),
+        };
+        String::from_utf8_lossy(&b).chars().take(400).collect()
+    }
     fn count_nontrivial(&self, _case: &MutCase, fs: &FileSet, orig: &FileSet, ctx: &mut Ctx) {
         let changed = fs.lex != orig.lex || fs.chardef != orig.chardef || fs.unk != orig.unk || fs.matrix != orig.matrix || fs.bigram != orig.bigram || fs.user != orig.user;
         if changed {
